@@ -106,6 +106,35 @@ def run(args):
         records.append(rec("interrupt", oc["span"], src, fileok=oc["span"]["f"] == "main", culprit=culprit,
                            culprit_lines=(cul["s"][0], cul["e"][0]) if cul else None))
         owners.append({"program": src[:1500], "backend": b, "outcome": oc, "culprit_span": cul})
+    # ---- (c) a value that does not fit an annotated `let` / an `as` is reported at that statement, however the type was
+    # written: inline, by a name defined elsewhere in the file, by a name imported from another module
+    casts = []
+    bad = "\"[1, \\\"x\\\"]\".parse_json()"
+    for how, head, ty in (("inline", "", "[int]"), ("named", "type Numbers = [int];\n", "Numbers"), ("named-far", "type Numbers = [int];\n" + "\n" * 6, "Numbers"),
+                          ("imported", "import type Numbers from lib;\n", "Numbers")):
+        for form in ("let n: %s = %s;" % (ty, bad), "let n = %s as %s;" % (bad, ty), "let j: any = %s;\n    let n: %s = j;" % (bad, ty)):
+            src = head + "fn pad() { }\n\nfn main() {\n    println(\"before\");\n    " + form + "\n    println(n);\n}\n"
+            lines = src.split("\n")
+            cl = max(i for i, l in enumerate(lines) if "let n" in l) + 1
+            casts.append((how, src, cl))
+    creqs = [{"op": "run", "id": i, "a": {"modules": {"main": src, "lib": "pub type Numbers = [int];\nfn main() { }\n"}, "entry": "main", "backend": b}}
+             for i, (how, src, cl) in enumerate(casts) for b in ("vm", "tree")]
+    cres = pool.map(creqs, timeout=30)
+    k = 0
+    for how, src, cl in casts:
+        for b in ("vm", "tree"):
+            r = cres[k]
+            k += 1
+            if "r" not in r or not r["r"].get("outcome") or "span" not in r["r"]["outcome"]:
+                continue
+            oc = r["r"]["outcome"]
+            if oc["kind"] not in ("uncaught", "fatal"):
+                continue
+            rep.count()
+            start = sum(len(l) + 1 for l in src.split("\n")[:cl - 1])
+            records.append(rec("interrupt", oc["span"], src, fileok=oc["span"]["f"] == "main", culprit=(start, start + len(src.split("\n")[cl - 1])),
+                               culprit_lines=(cl, cl)))
+            owners.append({"program": src, "backend": b, "outcome": oc, "how": how})
     # ---- TLC evaluates the predicates on every record
     for r in records:
         rep.nontrivial(json.dumps(r, sort_keys=True))
